@@ -97,12 +97,15 @@ class Res:
         self.dn = 0
         self.samples: List[Any] = []
         self.sets: Dict[str, List[str]] = {}
+        self._perkey: Dict[str, int] = {}
 
     def c(self, name: str, n: int = 1) -> None:
         self.cnt[name] = self.cnt.get(name, 0) + n
 
     def v(self, key: str, msg: str, **witness: Any) -> None:
-        if len(self.viol) < 40:
+        n = self._perkey.get(key, 0)
+        self._perkey[key] = n + 1
+        if n < 3 and len(self._perkey) <= 80:
             self.viol.append(viol(key, msg, **witness))
         self.c('violations_raw')
 
@@ -276,12 +279,15 @@ def _run_check(mod: Any, check_id: str, tier: str, sd: int, t0: float, tmp: Path
     for k, n in sorted(seen_known.items()):
         print(f"KNOWN-FINDING: property={check_id} {known_keys[k]['what']} [key={k}; seen {n}x this run]")
 
+    keycount: Dict[str, int] = {}
+    for i, v in new_viol:
+        keycount[v['key']] = keycount.get(v['key'], 0) + 1
     rc = 0
     rdir = VERIF / 'replays' / check_id
     printed = set()
     for i, v in new_viol:
         rc = 1
-        if v['key'] in printed or len(printed) >= 8:
+        if v['key'] in printed or len(printed) >= int(os.environ.get('VERIF_MAXKEYS', '12')):
             continue
         printed.add(v['key'])
         rdir.mkdir(parents=True, exist_ok=True)
@@ -337,6 +343,8 @@ def _run_check(mod: Any, check_id: str, tier: str, sd: int, t0: float, tmp: Path
           f"distinct_nontrivial={dn} violations={len(new_viol)} known={sum(seen_known.values())} "
           f"wall={ev['wall_s']}s")
     print('  counters: ' + ', '.join(f'{k}={v}' for k, v in sorted(agg['cnt'].items())))
+    if keycount:
+        print('  violation keys: ' + ', '.join(f'{k} x{n}' for k, n in sorted(keycount.items())))
     if rc == 1:
         return 1
     if inconclusive:
